@@ -346,15 +346,33 @@ func runC10(c *Ctx) (int, error) {
 		}
 		events = append(events, map[string]interface{}{"ev": "tokens", "res": res, "res2": res2, "seen": seen, "text": text, "lexerr": lex})
 	}
+	sameLineToo := false
 	appendTest := func(text string, lex bool, kind string) {
 		res, _, _ := read(text)
 		res2, seen := "", false
 		if res == "nil" {
-			var f2 bebop.File
-			res2, _, f2 = read(text + appended)
-			for _, s := range f2.Structs {
-				if s.Name == "Zq9" {
-					seen = true
+			// the appended definition starts on a line of its own; when the text does not end its last line, also right
+			// behind it on that line
+			apps := []string{appended}
+			if sameLineToo && !strings.HasSuffix(text, "\n") {
+				apps = append(apps, " "+strings.TrimPrefix(appended, "\n"))
+			}
+			seen = true
+			for _, app := range apps {
+				r2, _, f2 := read(text + app)
+				if res2 == "" || r2 != "nil" {
+					res2 = r2
+				}
+				found := false
+				for _, s := range f2.Structs {
+					if s.Name == "Zq9" {
+						found = true
+					}
+				}
+				if r2 == "nil" && !found {
+					seen = false
+					res2 = "nil"
+					break
 				}
 			}
 		}
@@ -400,11 +418,15 @@ func runC10(c *Ctx) (int, error) {
 		}
 		for k := 1; k < len(pc.Tokens); k++ {
 			t := pc.Tokens[k-1]
-			if t == "~" || t == "^" || t == "\n" {
+			if t == "~" || t == "^" || t == "\n" || t == "#" || t == "%" {
 				continue
 			}
 			nprefix++
 			appendTest(ast.Render(pc.Tokens[:k], ast.Layouts[0]), false, "prefix")
+			// ... and with nothing behind the last token (no final newline), bodies on several lines
+			sameLineToo = !strings.HasPrefix(t, "//") // (what follows a line comment on its line is part of the comment)
+			appendTest(ast.Render(pc.Tokens[:k], ast.Layouts[6]), false, "prefix")
+			sameLineToo = false
 		}
 	}
 	boom := errors.New("boom: injected read failure")
